@@ -17,13 +17,15 @@ Shuffle outcomes of the real code are recorded (np.random.shuffle is tapped from
 either seeded or scripted) and handed to the model, whose theorems quantify over all of them.
 """
 import contextlib
+import signal
+import warnings
 import copy
 import itertools
 import json
 
 import numpy as np
 
-from lean import first_diff, rat
+from lean import fbits, first_diff, rat
 
 PROPERTY = 'C05'
 LEVEL = 'proof'
@@ -37,13 +39,20 @@ THEOREMS = [P + n for n in (
     'groups_same_side', 'realize_disjoint', 'exhaustive_once',
     'contents_as_advertised', 'ceil_is_train_at_test',
     'trainSet_indep_of_test_only', 'theta_indep_of_test_only', 'score_indep_of_train_only',
-    'concat_sampling_count', 'concat_sampling_disjoint')]
+    'concat_sampling_count', 'concat_sampling_disjoint',
+    # round 2
+    'kfold_both_mem', 'kfold_both_exhaustive_once', 'concat_sampling_matches_object',
+    'default_k_accepted', 'default_k_real')]
 RULE = ('one PRNG; sets: every generator (8) x 2-9 RDMs x 3-10 conditions, grouping descriptors '
         'with repeated values (int or string labels) or the index descriptor, optionally with '
         'repeated index values (bootstrap copies), k = 1..n plus defaults and the rejected values '
         '(0, n+1), group sizes, random False/True (shuffle recorded or scripted); crossval: the '
         'same objects through evaluate.crossval / _internal_cv with fixed, selection and weighted '
-        'models, entries perturbed per fold; a case is non-trivial when at least one axis is split '
+        'models, entries perturbed per fold; round 2: every fitter (regress incl. Fitter objects and _cov '
+        'methods, regress_nn under a 2 s guard, optimize, optimize_positive, interpolate), noise ceiling '
+        'on/off, folds too small to evaluate, a single RDM group, and the public bootstrap_crossval (real '
+        'draws under a seed, boot_type both/rdm/pattern, given and default fold counts; every sample is '
+        'described to the model by a hook); a case is non-trivial when at least one axis is split '
         'into more than one fold or the call is rejected; distinct = distinct (kind, generator, '
         'descriptors, parameters, shuffle outcomes)')
 BRANCHES = ['gen:k_fold', 'gen:k_fold_rdm', 'gen:k_fold_pattern', 'gen:of_k_rdm', 'gen:of_k_pattern',
@@ -51,7 +60,12 @@ BRANCHES = ['gen:k_fold', 'gen:k_fold_rdm', 'gen:k_fold_pattern', 'gen:of_k_rdm'
             'grouped:rdm', 'grouped:pattern', 'copies:rdm', 'copies:pattern', 'labels:str',
             'k:one', 'k:all', 'k:default', 'uneven', 'exc:AssertionError', 'exc:ZeroDivisionError',
             'exc:IndexError', 'cv:direct', 'cv:boot', 'cv:weighted', 'cv:select', 'cv:fixed',
-            'cv:perturbed', 'concat']
+            'cv:perturbed', 'concat',
+            # round 2
+            'loo:single_group', 'cv:interpolate', 'fit:regress', 'fit:regress_nn', 'fit:optimize',
+            'fit:optimize_positive', 'fit:fitter_obj', 'cv:cov_method', 'cv:nc_given_ceil',
+            'cv:nc_no_ceil', 'cv:skipped_fold', 'cv:bootcv', 'bootcv:both', 'bootcv:rdm',
+            'bootcv:pattern', 'bootcv:default_k', 'cv:bare_model']
 ASSUMPTIONS = [
     'descriptor values are mapped to natural-number codes (non-negative ints as themselves, strings '
     'by rank) before they reach the model; np.unique orders ints numerically and strings by code point',
@@ -242,8 +256,9 @@ def _run_sets(case, matrix=None):
     for i in range(len(train)):
         folds.append({
             'train': _decode(train[i][0], train[i][1], case, pmap),
-            'test': _decode(test[i][0], test[i][1], case, pmap),
-            'ceil': None if ceil is None else _decode(ceil[i][0], ceil[i][1], case, pmap)})
+            'test': _decode(test[i][0], test[i][1], case, pmap) if i < len(test) else None,
+            'ceil': None if ceil is None or i >= len(ceil)
+            else _decode(ceil[i][0], ceil[i][1], case, pmap)})
     return {'folds': folds, 'n_train': len(train), 'n_test': len(test),
             'n_ceil': None if ceil is None else len(ceil)}, tap.log, out
 
@@ -253,6 +268,7 @@ def _run_sets(case, matrix=None):
 def _make_model(case):
     from rsatoolbox.rdm import RDMs
     from rsatoolbox import model as M
+    from rsatoolbox.model import fitter as FT
     ms = case['model']
     nC = ms['n_cond']
     rs = np.random.RandomState(ms['seed'])
@@ -267,15 +283,36 @@ def _make_model(case):
         return M.ModelFixed('m', RDMs(vec[:1], pattern_descriptors=copy.deepcopy(pd))), M.fit_mock
     if kind == 'select':
         return M.ModelSelect('m', robj), M.fit_select
+    if kind == 'interpolate':
+        return M.ModelInterpolate('m', robj), M.fit_interpolate
     if kind == 'weighted':
-        fit = {'regress': M.fit_regress, 'regress_nn': M.fit_regress_nn}[ms.get('fitter', 'regress')]
+        name = ms.get('fitter', 'regress')
+        if name == 'fitter_obj':          # model.Fitter wrapping fit_regress with its own keyword
+            return M.ModelWeighted('m', robj), FT.Fitter(M.fit_regress, ridge_weight=ms['ridge'])
+        fit = {'regress': M.fit_regress, 'regress_nn': M.fit_regress_nn, 'optimize': M.fit_optimize,
+               'optimize_positive': FT.fit_optimize_positive}[name]
         return M.ModelWeighted('m', robj), fit
     raise ValueError(kind)
 
 
+class _Timeout(Exception):
+    pass
+
+
+def _alarm(_sig, _frm):
+    raise _Timeout()
+
+
+FIT_SECONDS = 2.0   # fit_regress_nn (_nn_least_squares) is known not to terminate on ~2 % of inputs (C08)
+
+
 def _obj_content(obj):
-    rows = [int(v) for v in obj.rdm_descriptors['orig']]
-    conds = [int(v) for v in obj.pattern_descriptors['orig']]
+    # positions inside the bootstrap sample ('spos', set by the bootstrap_crossval hook) when
+    # present, else positions in the input object
+    rk = 'spos' if 'spos' in obj.rdm_descriptors else 'orig'
+    pk = 'spos' if 'spos' in obj.pattern_descriptors else 'orig'
+    rows = [int(v) for v in obj.rdm_descriptors[rk]]
+    conds = [int(v) for v in obj.pattern_descriptors[pk]]
     vecs = [[_num(v) for v in row] for row in np.asarray(obj.dissimilarities).tolist()]
     order = sorted(range(len(rows)), key=lambda q: (rows[q], json.dumps(vecs[q])))
     return {'rows': [rows[q] for q in order], 'conds': conds, 'vecs': [vecs[q] for q in order]}
@@ -291,8 +328,12 @@ def _cv_once(case, matrix, fixed_thetas=None):
     pvals, pby = _axis(case, 'pat')
     _, rby = _axis(case, 'rdm')
     pmap = _codes(pvals)
-    rec = {'fit': [], 'cmp': [], 'thetas': [], 'raw_thetas': [], 'sets': []}
+    rvals, _ = _axis(case, 'rdm')
+    rmap = _codes(rvals)
+    rec = {'fit': [], 'cmp': [], 'thetas': [], 'raw_thetas': [], 'sets': [], 'calls': [], 'evals': []}
     calls = [0]
+    ms = case['model']
+    stochastic = ms.get('fitter') in ('optimize', 'optimize_positive')
 
     def fitter(mdl, data, method='cosine', pattern_idx=None, pattern_descriptor=None, **kw):
         c = _obj_content(data)
@@ -303,9 +344,18 @@ def _cv_once(case, matrix, fixed_thetas=None):
         if fixed_thetas is not None:
             theta = copy.deepcopy(fixed_thetas[calls[0]])
         else:
-            extra = {'ridge_weight': case['model']['ridge']} if case['model'].get('ridge') else {}
-            theta = base_fit(mdl, data, method=method, pattern_idx=pattern_idx,
-                             pattern_descriptor=pattern_descriptor, **extra, **kw)
+            extra = {'ridge_weight': ms['ridge']} if ms.get('ridge') and ms.get('fitter') != 'fitter_obj' \
+                else {}
+            if stochastic:      # the optimisers draw their starting points from np.random
+                np.random.seed(ms['seed'] % (2 ** 31))
+            old = signal.signal(signal.SIGALRM, _alarm)
+            signal.setitimer(signal.ITIMER_REAL, FIT_SECONDS)
+            try:
+                theta = base_fit(mdl, data, method=method, pattern_idx=pattern_idx,
+                                 pattern_descriptor=pattern_descriptor, **extra, **kw)
+            finally:
+                signal.setitimer(signal.ITIMER_REAL, 0)
+                signal.signal(signal.SIGALRM, old)
         calls[0] += 1
         rec['thetas'].append(np.array(theta, dtype=float).copy())
         rec['raw_thetas'].append(copy.deepcopy(theta))
@@ -313,6 +363,7 @@ def _cv_once(case, matrix, fixed_thetas=None):
 
     real_compare = ev.compare
     real_sets = ev.sets_k_fold
+    real_icv = ev._internal_cv
 
     def compare_hook(pred, data, method='cosine', **kw):
         c = _obj_content(data)
@@ -340,12 +391,44 @@ def _cv_once(case, matrix, fixed_thetas=None):
         note_sets(out[0], out[1])
         return out
 
+    tap_box = [None]
+
+    def icv_hook(models, sample, pdesc_, rdesc_, pattern_idx, k_pattern, k_rdm, method, fitter_):
+        # one bootstrap sample of bootstrap_crossval: describe it for the model
+        sample.rdm_descriptors['spos'] = list(range(sample.n_rdm))
+        sample.pattern_descriptors['spos'] = list(range(sample.n_cond))
+        n0 = len(tap_box[0].log)
+        call = {'rdesc': [_code_of(rmap, v) for v in sample.rdm_descriptors[rby]],
+                'pdesc': [_code_of(pmap, v) for v in sample.pattern_descriptors[pby or 'index']],
+                'dis': [[_num(v) for v in row] for row in np.asarray(sample.dissimilarities).tolist()],
+                'boot_pidx': [_code_of(pmap, v) for v in pattern_idx],
+                'k_rdm': int(k_rdm), 'k_pattern': int(k_pattern)}
+        out = real_icv(models, sample, pdesc_, rdesc_, pattern_idx, k_pattern, k_rdm, method, fitter_)
+        log = tap_box[0].log[n0:]
+        call['rsel'] = [_code_of(rmap, v) for v in log[0]] if log else None
+        call['psels'] = [[_code_of(pmap, v) for v in l] for l in log[1:]]
+        rec['calls'].append(call)
+        rec['evals'] += [float(v) for v in np.asarray(out[0])[0, 0]]
+        return out
+
     ev.compare = compare_hook
     ev.sets_k_fold = sets_hook
+    ev._internal_cv = icv_hook
     try:
-        with ShuffleTap(case.get('shuffle')) as tap, np.errstate(all='ignore'):
+        with ShuffleTap(case.get('shuffle')) as tap, np.errstate(all='ignore'), warnings.catch_warnings():
+            warnings.simplefilter('ignore')
+            tap_box[0] = tap
             try:
-                if case.get('boot_pidx') is not None:
+                if case.get('bootcv'):
+                    b, prm = case['bootcv'], case['params']
+                    np.random.seed(b['seed'])
+                    ev.bootstrap_crossval(model if case.get('bare_model') else [model], rdms,
+                                          method=case['method'], fitter=fitter,
+                                          k_pattern=prm.get('k_pattern'), k_rdm=prm.get('k_rdm'), N=b['N'],
+                                          n_cv=b['n_cv'], pattern_descriptor=pby, rdm_descriptor=rby,
+                                          boot_type=b['boot_type'], use_correction=b['n_cv'] > 1)
+                    evals = rec['evals']
+                elif case.get('boot_pidx') is not None:
                     prm = case['params']
                     evals, _nc = ev._internal_cv([model], rdms, pby, rby, list(case['boot_pidx']),
                                                  prm['k_pattern'], prm['k_rdm'], case['method'], fitter)
@@ -353,10 +436,13 @@ def _cv_once(case, matrix, fixed_thetas=None):
                 else:
                     train, test, ceil = _call_gen(case, rdms)
                     note_sets(train, test)
-                    res = ev.crossval([model], rdms, train, test, ceil_set=ceil, method=case['method'],
+                    res = ev.crossval(model if case.get('bare_model') else [model], rdms, train, test,
+                                      ceil_set=ceil, method=case['method'],
                                       fitter=fitter, pattern_descriptor=pby or 'index',
-                                      calc_noise_ceil=False)
+                                      calc_noise_ceil=bool(case.get('calc_nc', False)))
                     evals = np.asarray(res.evaluations)[0, 0]
+            except _Timeout:
+                return {'timeout': True, 'log': tap.log}
             except Exception as exc:  # noqa: BLE001
                 return {'exc': _exc_name(exc), 'log': tap.log}
         rec['evals'] = [float(v) for v in evals]
@@ -365,6 +451,7 @@ def _cv_once(case, matrix, fixed_thetas=None):
     finally:
         ev.compare = real_compare
         ev.sets_k_fold = real_sets
+        ev._internal_cv = real_icv
 
 
 def _perturb(case, matrix, keep, seed):
@@ -396,14 +483,20 @@ def _same_float_lists(a, b):
 def _crossval_experiment(case):
     base = _base_matrix(case)
     r0 = _cv_once(case, base)
+    if 'timeout' in r0:
+        return {'skip': 'fitter did not return within %.0f s' % FIT_SECONDS}, []
     if 'exc' in r0:
         return {'exc': r0['exc']}, r0.get('log', [])
+    if case.get('bootcv'):
+        r0['log'] = r0['calls']
     live = [q for q, s in enumerate(r0['sets']) if not s['skipped']]
     out = {'n_folds': len(r0['sets']), 'live': live,
            'fit': [{k: c[k] for k in ('rows', 'conds', 'vecs', 'pidx')} for c in r0['fit']],
            'cmp': [{k: c[k] for k in ('rows', 'conds', 'vecs')} for c in r0['cmp']],
            'pred_matches_test': [bool(c['pred_ok']) for c in r0['cmp']],
            'calls_match': len(r0['fit']) == len(live) and len(r0['cmp']) == len(live),
+           'n_calls': len(r0['calls']),
+           'k_used': sorted(set((c['k_rdm'], c['k_pattern']) for c in r0['calls'])),
            'theta_stable': [], 'score_stable': [], 'fit_args_stable': [],
            'perturbed_test_only': [], 'perturbed_train_only': [], 'sensitive': False}
     if not out['calls_match']:
@@ -416,6 +509,8 @@ def _crossval_experiment(case):
         m1, n1 = _perturb(case, base, lambda r, i, j: r in trr and i in trc and j in trc,
                           case['pseed'] + 2 * q)
         r1 = _cv_once(case, m1)
+        if 'timeout' in r1:
+            return {'skip': 'fitter did not return within %.0f s' % FIT_SECONDS}, []
         ok_theta = 'exc' not in r1 and len(r1['thetas']) == len(r0['thetas']) \
             and _same_float_lists([r1['thetas'][pos]], [r0['thetas'][pos]])
         ok_args = 'exc' not in r1 and len(r1['fit']) == len(r0['fit']) and r1['fit'][pos] == r0['fit'][pos]
@@ -492,7 +587,24 @@ def _sets_request(case, log):
 def model_requests(case):
     if case['kind'] == 'concat':
         return [{'op': 'c05.concat', 's1': case['s1'], 's2': case['s2']}]
-    _, log = _impl_cached(case)
+    res, log = _impl_cached(case)
+    if isinstance(res, dict) and 'skip' in res:
+        return []
+    if case.get('bootcv'):
+        prm = case['params']
+        shrink_ = 1 - 1 / float(np.exp(1))
+        reqs = [{'op': 'c05.default_k', 'n_rdm_groups': _n_groups(case, 'rdm'),
+                 'x_rdm': fbits(shrink_ * _n_groups(case, 'rdm')),
+                 'x_pattern': fbits(shrink_ * _n_groups(case, 'pat')),
+                 'k_rdm': prm.get('k_rdm'), 'k_pattern': prm.get('k_pattern')}]
+        for c in (log if isinstance(res, dict) and 'exc' not in res else []):
+            r = {'op': 'c05.sets', 'gen': 'k_fold', 'rdesc': c['rdesc'], 'pdesc': c['pdesc'],
+                 'dis': c['dis'], 'k_rdm': c['k_rdm'], 'k_pattern': c['k_pattern'],
+                 'boot_pidx': c['boot_pidx'], 'psels': c['psels']}
+            if c['rsel'] is not None:
+                r['rsel'] = c['rsel']
+            reqs.append(r)
+        return reqs
     return [_sets_request(case, log)]
 
 
@@ -506,14 +618,27 @@ def _canon_part(p):
 
 
 def model_result(case, answers):
-    a = answers[0]
-    if case['kind'] == 'concat':
-        return a
-    if isinstance(a, dict) and 'model_error' in a:
-        return a
-    if 'exc' in a:
-        return {'exc': a['exc']}
-    folds = [{k: _canon_part(f[k]) for k in ('train', 'test', 'ceil')} for f in a['folds']]
+    if case['kind'] == 'crossval' and (not answers or case.get('bootcv')):
+        for a in answers:
+            if isinstance(a, dict) and 'model_error' in a:
+                return a
+            if isinstance(a, dict) and 'exc' in a:
+                return {'model_error': 'model rejects a sample the implementation cross-validated: ' + a['exc']}
+        kdef, answers = (answers[0], answers[1:]) if case.get('bootcv') and answers else (None, answers)
+        folds = [{k: _canon_part(f[k]) for k in ('train', 'test', 'ceil')}
+                 for a in answers for f in a['folds']]
+        a = {'n_calls': len(answers)}
+        if kdef is not None:
+            a['k_used'] = [[int(kdef[0]), int(kdef[1])]] if answers else []
+    else:
+        a = answers[0]
+        if case['kind'] == 'concat':
+            return a
+        if isinstance(a, dict) and 'model_error' in a:
+            return a
+        if 'exc' in a:
+            return {'exc': a['exc']}
+        folds = [{k: _canon_part(f[k]) for k in ('train', 'test', 'ceil')} for f in a['folds']]
     if case['kind'] == 'sets':
         no_ceil = bool(folds) and folds[0]['ceil'] is None
         return {'folds': folds, 'n_train': len(folds), 'n_test': len(folds),
@@ -522,7 +647,8 @@ def model_result(case, answers):
     live = [q for q, f in enumerate(folds)
             if not (len(f['train']['rows']) == 0 or len(f['test']['rows']) == 0
                     or len(f['train']['conds']) <= 2 or len(f['test']['conds']) <= 2)]
-    return {'n_folds': len(folds), 'live': live,
+    return {'n_folds': len(folds), 'live': live, **({'n_calls': a['n_calls']} if 'n_calls' in a else {}),
+            **({'k_used': a['k_used']} if 'k_used' in a else {}),
             'fit': [{k: folds[q]['train'][k] for k in ('rows', 'conds', 'vecs', 'pidx')} for q in live],
             'cmp': [{k: folds[q]['test'][k] for k in ('rows', 'conds', 'vecs')} for q in live],
             'pred_matches_test': [True] * len(live), 'calls_match': True,
@@ -533,6 +659,8 @@ def model_result(case, answers):
 def compare(case, impl, model):
     if isinstance(model, dict) and 'model_error' in model:
         return f"model error: {model['model_error']}"
+    if isinstance(impl, dict) and 'skip' in impl:
+        return None
     if case['kind'] == 'crossval' and isinstance(impl, dict) and 'exc' not in impl:
         impl = {k: v for k, v in impl.items() if k in model}
     return first_diff(impl, model, rtol=0, atol=0)
@@ -584,9 +712,31 @@ def features(case, impl):
          'rdm_by': str(case['rdm']['by']), 'pattern_by': str(pby),
          'random': bool(prm.get('random')), 'branches': br,
          'default_pattern_descriptor': g == 'of_k_pattern' and pby is None}
+    if g == 'loo_rdm' and nrg == 1:
+        br.append('loo:single_group')
     if kind == 'crossval':
-        br.append('cv:boot' if case.get('boot_pidx') is not None else 'cv:direct')
+        ok = isinstance(impl, dict) and 'exc' not in impl and 'skip' not in impl
+        if case.get('bootcv'):
+            br.append('cv:bootcv')
+            if ok and impl.get('n_calls'):
+                br.append('bootcv:' + case['bootcv']['boot_type'])
+                if case['params'].get('k_rdm') is None:
+                    br.append('bootcv:default_k')
+        else:
+            br.append('cv:boot' if case.get('boot_pidx') is not None else 'cv:direct')
         br.append('cv:' + case['model']['type'])
+        if case['model'].get('fitter') and ok:
+            br.append('fit:' + case['model']['fitter'])
+        if ok and case['method'].endswith('_cov'):
+            br.append('cv:cov_method')
+        if ok and case.get('calc_nc'):
+            br.append('cv:nc_given_ceil' if g not in ('k_fold_pattern', 'of_k_pattern') else 'cv:nc_no_ceil')
+        if ok and impl.get('n_folds', 0) > len(impl.get('live', [])):
+            br.append('cv:skipped_fold')
+        if isinstance(impl, dict) and 'skip' in impl:
+            br.append('cv:timeout')
+        if ok and case.get('bare_model'):
+            br.append('cv:bare_model')
         if isinstance(impl, dict) and any(impl.get('perturbed_test_only', [])) \
                 and any(impl.get('perturbed_train_only', [])) and impl.get('sensitive'):
             br.append('cv:perturbed')
@@ -598,13 +748,16 @@ def features(case, impl):
 def nontrivial_key(case, impl):
     if case['kind'] == 'concat':
         return ['concat', case['s1'], case['s2']] if len(set(case['s1'])) < len(case['s1']) else None
+    if isinstance(impl, dict) and 'skip' in impl:
+        return None
     if isinstance(impl, dict) and 'exc' in impl:
         return [case['kind'], case['gen'], 'exc', case['params'], case['rdm'], case['pat']]
     n = impl.get('n_train') if case['kind'] == 'sets' else impl.get('n_folds')
     if not n or n < 2:
         return None
     return [case['kind'], case['gen'], case['params'], case['rdm'], case['pat'],
-            case.get('shuffle'), case.get('model'), case.get('boot_pidx')]
+            case.get('shuffle'), case.get('model'), case.get('boot_pidx'), case.get('bootcv'),
+            case.get('method'), case.get('calc_nc')]
 
 
 # ------------------------------------------------------------------ generators
@@ -658,6 +811,10 @@ def _gen_sets_case(rng, gen=None, malformed=False):
     nR, nC = rng.randint(2, 9), rng.randint(3, 10)
     gen = gen or rng.choice(GENS)
     case = {'kind': 'sets', 'gen': gen, 'rdm': _gen_axis(rng, nR), 'pat': _gen_axis(rng, nC)}
+    if gen == 'loo_rdm' and rng.random() < 0.15:
+        # a single RDM group: leave-one-out degenerates to the whole object as its own test set
+        lab = rng.choice([3, 'ab'])
+        case['rdm'].update({'by': 'g', 'g': [lab] * nR, 'index': None})
     nrg, npg = _n_groups(case, 'rdm'), _n_groups(case, 'pat')
     rnd = rng.random() < 0.5
     prm = {'random': rnd}
@@ -710,11 +867,50 @@ def _gen_sets_case(rng, gen=None, malformed=False):
     return case
 
 
+def _gen_bootcv_case(rng):
+    """the public entry point bootstrap_crossval (real bootstrap draws under a seed, every sample
+    it cross-validates is described to the model by a hook on _internal_cv)"""
+    nR, nC = rng.randint(3, 6), rng.randint(8, 12)
+    rax = _gen_axis(rng, nR, allow_copies=False)
+    pat = _gen_axis(rng, nC, allow_copies=False)
+    if pat['by'] == 'g':                      # few, large pattern groups would never pass the guard
+        pat['g'] = _labels(rng, nC, rng.randint(nC - 2, nC), isinstance(pat['g'][0], str))
+    mtype = rng.choice(['fixed', 'select', 'weighted'])
+    case = {'kind': 'crossval', 'gen': 'k_fold', 'rdm': rax, 'pat': pat,
+            'params': {'random': True, 'k_rdm': rng.randint(1, 2), 'k_pattern': rng.randint(1, 2)},
+            'bootcv': {'seed': rng.randrange(10 ** 6), 'N': 2, 'n_cv': rng.randint(1, 2),
+                       'boot_type': rng.choice(['both', 'rdm', 'pattern'])},
+            'shuffle': {'seed': rng.randrange(10 ** 6)},
+            'model': {'type': mtype, 'n_cond': nC, 'n_rdm': rng.randint(2, 3),
+                      'seed': rng.randrange(10 ** 6), 'g': list(pat['g'])},
+            'values': 'random', 'dseed': rng.randrange(10 ** 6), 'pseed': rng.randrange(10 ** 6),
+            'method': rng.choice(['cosine', 'corr'])}
+    if mtype == 'weighted':
+        case['model']['fitter'] = 'regress'
+        case['model']['ridge'] = rng.choice([0.5, 1.0])
+    if rng.random() < 0.3:
+        # default fold counts: default_k_*((1 - 1/e) * number of groups), 1 for a single rdm group
+        case['params'] = {'random': True, 'k_rdm': None, 'k_pattern': None}
+        case['bare_model'] = True
+        if rng.random() < 0.3:
+            case['rdm'].update({'by': 'g', 'g': [7] * nR, 'index': None})
+    return case
+
+
 def _gen_crossval_case(rng):
-    boot = rng.random() < 0.4
+    u = rng.random()
+    if u < 0.15:
+        return _gen_bootcv_case(rng)
+    boot = u < 0.45
     nR = rng.randint(2, 6)
-    mtype = rng.choice(['fixed', 'select', 'weighted', 'weighted'])
+    mtype = rng.choice(['fixed', 'select', 'weighted', 'weighted', 'weighted', 'interpolate'])
+    fit_name = rng.choice(['regress', 'regress', 'regress', 'fitter_obj', 'fitter_obj', 'regress_nn',
+                           'regress_nn', 'optimize', 'optimize_positive'])
+    slow = mtype == 'weighted' and fit_name.startswith('optimize')   # BFGS from several starts
+    if slow:
+        boot = False
     method = rng.choice(['cosine', 'corr'])
+    calc_nc = False
     if boot:
         n0 = rng.randint(7, 11)                      # original conditions
         # a bootstrap draw with at least 6 distinct conditions (bootstrap_crossval only
@@ -737,6 +933,8 @@ def _gen_crossval_case(rng):
         nC = rng.randint(6, 10)
         gen = rng.choice(['k_fold', 'k_fold', 'k_fold_rdm', 'k_fold_pattern', 'random', 'loo_rdm',
                           'loo_pattern', 'of_k_pattern'])
+        if slow:
+            gen = rng.choice(['k_fold_rdm', 'k_fold_pattern'])
         rax = _gen_axis(rng, nR, allow_copies=False)
         pat = _gen_axis(rng, nC, allow_copies=False)
         if gen in RDM_ONLY:
@@ -746,14 +944,18 @@ def _gen_crossval_case(rng):
         rnd = rng.random() < 0.5
         prm = {'random': rnd}
         sizes = []
+        # the noise ceiling is requested only when every test fold keeps >= 3 condition groups
+        calc_nc = gen in ('k_fold', 'k_fold_rdm', 'k_fold_pattern', 'loo_rdm') and rng.random() < 0.5
+        kp_max = max(1, npg // 3) if calc_nc else npg
         if gen == 'k_fold':
-            prm['k_rdm'], prm['k_pattern'] = rng.randint(1, min(nrg, 3)), rng.randint(1, min(npg, 3))
+            prm['k_rdm'] = rng.randint(1, min(nrg, 3))
+            prm['k_pattern'] = rng.randint(1, min(kp_max, 4))
             sizes = [nrg] + [npg] * prm['k_rdm']
         elif gen == 'k_fold_rdm':
-            prm['k_rdm'] = rng.randint(2, nrg)
+            prm['k_rdm'] = 2 if slow else rng.randint(2, nrg)
             sizes = [nrg]
         elif gen == 'k_fold_pattern':
-            prm['k'] = rng.randint(1, min(npg, 3))
+            prm['k'] = min(2, kp_max) if slow else rng.randint(1, min(kp_max, 5))
             sizes = [npg]
         elif gen == 'of_k_pattern':
             prm['k'] = rng.randint(1, max(1, npg // 2))
@@ -769,8 +971,18 @@ def _gen_crossval_case(rng):
         case['model'] = {'type': mtype, 'n_cond': nC, 'n_rdm': rng.randint(2, 3),
                          'seed': rng.randrange(10 ** 6), 'g': list(pat['g'])}
     if mtype == 'weighted':
-        case['model']['fitter'] = 'regress'
-        case['model']['ridge'] = rng.choice([0.5, 1.0, 2.0])
+        case['model']['fitter'] = fit_name
+        if slow:
+            case['model']['n_rdm'] = 2
+        if case['model']['fitter'] in ('regress', 'fitter_obj'):
+            case['model']['ridge'] = rng.choice([0.5, 1.0, 2.0])
+        if case['model']['fitter'] in ('regress', 'fitter_obj', 'regress_nn') and not boot \
+                and rng.random() < 0.3:
+            method = rng.choice(['cosine_cov', 'corr_cov'])
+    if calc_nc:
+        case['calc_nc'] = True
+    if not boot and rng.random() < 0.25:
+        case['bare_model'] = True       # a Model instead of a list of models
     case['values'] = 'random'
     case['dseed'] = rng.randrange(10 ** 6)
     case['pseed'] = rng.randrange(10 ** 6)
@@ -815,7 +1027,7 @@ def _exhaustive_small(tier):
 
 
 def generate(rng, tier):
-    n_sets, n_bad, n_cv, n_cc = (700, 100, 150, 30) if tier == 'quick' else (12000, 1200, 3000, 200)
+    n_sets, n_bad, n_cv, n_cc = (700, 100, 150, 30) if tier == 'quick' else (12000, 1200, 2000, 200)
     yield from _exhaustive_small(tier)
     for q in range(n_sets):
         yield _gen_sets_case(rng, gen=GENS[q % len(GENS)])
@@ -1017,7 +1229,13 @@ def _oracle_sets(case):
 def _oracle_crossval(case):
     res, _ = _crossval_experiment(case)
     feat = {'gen': case['gen'], 'model': case['model']['type'], 'default_pattern_descriptor': False}
+    if 'skip' in res:
+        return None      # fitter did not terminate (C08): the property is silent
     if 'exc' in res:
+        valid = case.get('bootcv') is not None or _valid_call(case)
+        if valid:
+            return _viol('cross-validated evaluation raises on the folds of a call inside the documented domain',
+                         res['exc'], 'one evaluation per fold', exc=res['exc'], part='crossval', **feat)
         return None      # rejected call: the property is silent
     if not res['calls_match']:
         return _viol('the fitter / comparison is not called once per evaluable fold',
